@@ -14,27 +14,44 @@ arbitrary bytes are delivered in fragments
   client        as response bytes to the real http.Client (plain and TLS flavoured
                 connector) with one request outstanding.  service() must never raise
                 and at most one response entry may be produced for the request.
+  wsgi-tls / bare-tls / client-tls
+                the same service loops with scheme https on an in-memory TLS model: bytes the peer writes through its TLS
+                layer arrive as plaintext; from the point where the peer writes raw bytes that are not TLS records the
+                recv() (or do_handshake()) that reaches them raises ssl.SSLError(SSL_ERROR_SSL) as OpenSSL does.
+Hostile families added after the C16 hunt: request targets whose percent-decoding yields brackets / delimiters, deeply nested
+JSON bodies (JSON content type or dictable) on both sides, text/event-stream responses (invalid UTF-8, ids outside latin-1,
+hostile retry values, nested JSON data) with a reconnectable client that is serviced through the reconnect, hostile
+Location values (bracketed hosts, bad ports, percent-encoded authority).
 Failures are bucketed by (exception type, innermost hio frame) so that every root
 cause is reported once.
 """
 import contextlib
 import io
 import json
+import ssl
 
 from hypothesis import strategies as st
 
+from hio.base import tyming
 from hio.core.http import clienting, serving
+from hio.core.tcp import clienting as tcpc
 from vlib import fakenet, httpgen, memhttp
 from vlib.core import Result, hio_frame
 
 PID = "C16"
-RULE = ("cases: target in {wsgi server, bare server, client, TLS client} x (valid generated message + 1-3 mutations | arbitrary "
-        "bytes) x fragmentation; plus a complete enumeration of every listed near-valid value (chunk sizes, Content-Length values, "
-        "targets, start lines, a byte >= 0x80 or NUL at 3 positions of each of the first 4 head lines) alone on a canonical "
-        "message x target x {whole, byte-at-a-time}. non-trivial = a mutated valid message whose first line is still a valid start line (the "
-        "parser gets beyond the start line); distinct = canonical hash of the case")
+RULE = ("cases: target in {wsgi server, bare server, client, TLS client, https wsgi server, https bare server} x (valid generated "
+        "message + 1-3 mutations | arbitrary bytes) x fragmentation x (https targets: offset from which the peer writes non-TLS "
+        "bytes, or none) x (client: reconnectable, dictable); plus a complete enumeration of every listed near-valid value (chunk "
+        "sizes, Content-Length values, targets incl. percent-encoded brackets, start lines, a byte >= 0x80 or NUL at 3 positions "
+        "of each of the first 4 head lines, nested JSON bodies, listed event streams, listed Location values, non-TLS bytes at "
+        "listed offsets) alone on a canonical message x target x {whole, byte-at-a-time}. non-trivial = a mutated valid message "
+        "(or a valid one cut by non-TLS bytes) whose first line is still a valid start line (the parser gets beyond the start "
+        "line); distinct = canonical hash of the case")
 ASSUMPTIONS = ["the WSGI application is a well-behaved echo application", "redirect targets resolve to in-memory connectors "
-               "(clienting.tcp.Client / ClientTls are replaced by fake connectors inside the check process)"]
+               "(clienting.tcp.Client / ClientTls are replaced by fake connectors inside the check process)",
+               "https targets run on a model of the TLS layer, not on OpenSSL: authentic records are delivered as plaintext, and the "
+               "recv / do_handshake call that reaches bytes which are not a TLS record raises ssl.SSLError(SSL_ERROR_SSL, "
+               "'[SSL: WRONG_VERSION_NUMBER] ...') (what CPython 3.12 / OpenSSL 3 raise over real sockets for these inputs)"]
 
 BAD_SIZES = ["-1", "+5", "0x5", "1_0", "", " ", "\t", "  ", " ;ext=1", ";a=b", " 5 ", "g", "5 5", "zz", "0x", "-0", "ffffffffffffffffffff",
              "4\xe9", "\xff", "\x80", "5;e\xff=1", "5;\xe9", "1\x00", "\u0665".encode("utf-8").decode("latin-1"), "5;a=\"\xff\""]
@@ -47,6 +64,46 @@ BAD_STARTS_RESP = ["HTTP/1.1", "HTTP/1.1 abc OK", "HTTP/1.1 99 Low", "HTTP/1.1 1
                    "HTTP/1.1 301 Moved", "HTTP/1.1 100 Continue"]
 BAD_CL = ["-5", "abc", "99999999999999999999", "1e3", "", " 7", "0x10", "+3", "5\xe9", "\xff", "\xb2", "1\xb3", "\xb9",
           "\u0665".encode("utf-8").decode("latin-1"), "1_0", "5 ", "0005", "5,5"]
+
+# ---- hostile families added after the C16 hunt (each list is enumerated completely by enumerate_cases)
+# request targets whose percent-decoding yields brackets / delimiters the literal target did not have
+PCT_TARGETS = ["//%5B", "//%5D", "/%5B", "//%5B::1", "//%5B::1%5D:99999/", "//x:%39%39%39%39%39%39/", "http://%5B::1/x",
+               "http://x%3A99999/", "/a%3Fb=1", "/a%23b", "/%", "/%zz", "/%00", "/%ff%fe", "//%40", "//[", "//[::1]%5B", "/?a=%5B",
+               "/?%5B=1", "/#%5B", "//%5b", "/%2F%2F%5B"]
+TARGET_PIECES = ["/", "//", "%5B", "%5D", "%5b", "[", "]", ":", "%3A", "@", "%40", "?", "%3F", "#", "%23", "%", "%zz", "%2F", "a", "1",
+                 "99999", "::1", "http:", "%00", "%FF", ";", "&", "=", "+", "%25", "%255B", "x"]
+# JSON nesting: opener -> (innermost value, closer); a body is opener * depth [+ value + closer * depth]
+JSON_NEST = {"[": ("", "]"), "{\"a\":": ("1", "}"), "[{\"a\":": ("1", "}]")}
+JSON_DEPTHS = [1600, 3000, 20000, 1400, 200]     # CPython 3.12: the C scanner gives up at about 1500 levels whatever the Python limit
+JSON_CTYPES = ["application/json", "application/json; charset=utf-8", "Application/JSON", None]
+# text/event-stream bodies
+SSE_FIELDS = [b"data", b"id", b"event", b"retry", b"", b"da\xffta", b"\xe2\x82\xac", b"x", b"\xff"]
+SSE_SEPS = [b": ", b":", b"", b":  "]
+SSE_VALUES = [b"x", b"", b"\xff", b"\xc3", b"\xed\xa0\x80", b"\xe2\x82\xac", b"\xf0\x9f\x98\x80", b"\x00", b"caf\xe9", b"1", b"-5",
+              b"9" * 400, b"9" * 5000, b"1e3", b"\xd9\xa5", b"{\"a\": 1}", b"[" * 1600, b"[" * 20000, b"\xef\xbb\xbf", b"a\xe2\x82", b" "]
+SSE_EOLS = [b"\n", b"\r\n", b"\r"]
+SSE_STREAMS = [b"data: \xff\n\n", b"da\xffta: x\n\n", b"id: \xe2\x82\xac\ndata: x\n\n", b"id: \xf0\x9f\x98\x80\n\ndata: x\n\n",
+               b"id: \xff\ndata: x\n\n", b"event: \xc3\ndata: x\n\n", b"retry: " + b"9" * 400 + b"\ndata: x\n\n",
+               b"retry: " + b"9" * 5000 + b"\ndata: x\n\n", b"retry: -5\ndata: x\n\n", b"retry: \xd9\xa5\ndata: x\n\n",
+               b"retry: 1e3\nid: 1\ndata: x\n\n", b"data: " + b"[" * 1600 + b"\n\n", b"data: " + b"[" * 20000 + b"\n\n",
+               b"data: {\"a\": 1}\n\n", b"\xef\xbb\xbfid: 1\ndata: x\n\n", b"\xef\xbb", b"id\ndata\n\n", b": c\xff\n\n", b"id: \x00\ndata: x\n\n",
+               b"id: caf\xc3\xa9\ndata: x\n\n", b"data: x\r\rdata: y\r\n\r\n", b"id: 1\ndata: x\n\nid: \xe2\x82\xac\n\n"]
+# redirect Location values
+HOSTILE_LOCATIONS = ["http://[::abc]/x", "http://[::1]:8080/x", "http://[::ffff:1.2.3.4]/", "http://[1::]:81/", "http://[::abc]:81/x",
+                     "http://%5B::abc%5D/x", "http://[fe80::1%25eth0]/", "http://[::1]:abc/", "http://127.0.0.1:%38%31/",
+                     "http://127.0.0.1:8080:81/", "http://127.0.0.1:/x", "http://:81/", "http://127.0.0.1:0/", "https://[::abc]/x",
+                     "//[::abc]/x", "http://[::abc]", "http://[::]/", "http://[v1.x]:81/", "http://127.0.0.1%3A81/", "HTTP://[::ABC]/X",
+                     "http://[::abc]/%5B?q=%5D#%5B", "/%5B", "//%5B", "http://u:p@[::abc]/", "http://[::abc]:/"]
+LOC_SCHEMES = ["http://", "https://", "//", "", "HTTP://", "http:/", "ftp://"]
+LOC_HOSTS = ["[::abc]", "[::1]", "[::ffff:1.2.3.4]", "[1::]", "%5B::1%5D", "127.0.0.1", "[v1.x]", "[::1", "::1]", "[fe80::1%25eth0]", "",
+             "u:p@[::abc]", "[::abc]]", "[[::abc]", "127.0.0.1%3A81", "[]"]
+LOC_PORTS = ["", ":81", ":abc", ":99999", ":-1", ":", ":0", ":%38%31", ":8080", ":81:82", ": 81", ":\xb2"]
+LOC_TAILS = ["/x", "", "?q=1", "/%5B", "#f", "/x?y=%5D#%5B", "/\xe9"]
+
+
+def json_body(opener, depth, closed):
+    inner, closer = JSON_NEST[opener]
+    return (opener * depth + ((inner + closer * depth) if closed else "")).encode("latin-1")
 
 
 def mutate(spec, muts, kind):
@@ -64,6 +121,20 @@ def mutate(spec, muts, kind):
             spec["reason"] = "Redirect"
             if m[2] is not None:
                 spec["headers"] = spec["headers"] + [["Location", m[2]]]
+        elif k == "jsonbody":
+            # ["jsonbody", content type | None, opener, depth, closed]: the body becomes a deeply nested JSON text
+            spec["body"] = json_body(m[2], m[3], m[4])
+            if m[1] is not None:
+                spec["ctype"] = m[1]
+            if spec["frame"] in ("none", "nobody"):
+                spec["frame"] = "len"
+                if kind == "resp":
+                    spec["status"], spec["reason"] = 200, "OK"
+        elif k == "sse" and kind == "resp":
+            # ["sse", frame, stream bytes]: a 200 text/event-stream response carrying the stream
+            spec["status"], spec["reason"], spec["ctype"], spec["body"], spec["frame"] = 200, "OK", "text/event-stream", m[2], m[1]
+            if m[1] == "chunked" and "sizes" not in spec:
+                spec.update(sizes=[max(1, len(m[2]) // 3)], exts=[], trailers=[], hexupper=False, lz=0)
         else:
             post.append(m)
     data = bytearray(httpgen.build(spec))
@@ -156,12 +227,106 @@ def sig_of(prefix, ex):
     return "C16/%s:%s@%s" % (prefix, type(ex).__name__, hio_frame(ex) or "?")
 
 
+# ------------------------------------------------------------------ TLS model (https targets)
+
+def c16_ssl_error():
+    """What recv() / do_handshake() of an ssl socket raise when the bytes on the wire are not a TLS record (observed with
+    CPython 3.12 / OpenSSL 3 over real sockets: SSLError(1, '[SSL: WRONG_VERSION_NUMBER] wrong version number (_ssl.c:...)'))."""
+    return ssl.SSLError(ssl.SSL_ERROR_SSL, "[SSL: WRONG_VERSION_NUMBER] wrong version number (_ssl.c:2559)")
+
+
+class c16_TlsSocket(fakenet.FakeSocket):
+    """One end of a fake TLS connection.  What the peer wrote through its TLS layer is queued as plaintext; poison() stands for
+    the peer writing raw non-TLS bytes to the connection: everything queued before is still delivered, the call that reaches
+    the raw bytes raises SSLError (and so does every later one)."""
+
+    def __init__(self, *pa, **kwa):
+        super().__init__(*pa, **kwa)
+        self.c16_poisoned = False        # raw bytes follow what is queued in .inbuf
+        self.c16_hs_poisoned = False     # raw bytes instead of the peer's handshake records
+
+    def poison(self):
+        self.c16_poisoned = True
+
+    def recv(self, bs):
+        if self.c16_poisoned and not self.inbuf and not self.closed:
+            self.calls.append(("recv-fail", "SSLError"))
+            raise c16_ssl_error()
+        return super().recv(bs)
+
+    def do_handshake(self):
+        if self.c16_hs_poisoned:
+            raise c16_ssl_error()
+        return super().do_handshake()
+
+
+class c16_ServantTls(fakenet.FakeServantTls):
+    """The real tcp.ServerTls (serviceAxes / serviceCxes / RemoterTls) accepting in-memory connections whose server side end is a
+    c16_TlsSocket."""
+
+    def connect(self, port, name=None):
+        a = fakenet.FakeSocket(name or "c%d" % port, ("127.0.0.1", port), (self.eha[0], self.eha[1]))
+        b = c16_TlsSocket("s%d" % port, (self.eha[0], self.eha[1]), ("127.0.0.1", port))
+        a.peer, b.peer = b, a
+        self.pending.append(b)
+        return a
+
+
+class c16_TlsRig(memhttp.Rig):
+    """memhttp.Rig with the https flavour of the servers (same wiring, TLS servant)."""
+
+    def __init__(self, app=None, tymeout=None, tock=0.125, bare=False, bs=256, **kwa):
+        self.tymist = tyming.Tymist(tyme=0.0, tock=tock)
+        skw = {"bs": bs}
+        if tymeout is not None:
+            skw["tymeout"] = tymeout
+        self.servant = c16_ServantTls(**skw)
+        if bare:
+            self.server = serving.BareServer(servant=self.servant, **kwa)
+        else:
+            self.server = serving.Server(servant=self.servant, app=app, **kwa)
+        if hasattr(self.server, 'wind'):
+            self.server.wind(self.tymist.tymen())
+        else:
+            self.servant.wind(self.tymist.tymen())
+        self.clients = {}
+        self.rx = {}
+        self.eof = {}
+        self.nextport = 42000
+
+
+class c16_ConnectorTls(fakenet.FakeConnectorTls):
+    """TLS flavoured in-memory connector that runs the real ClientTls.connect / handshake on the fake socket (FakeConnectorTls
+    skips the handshake), so that a peer answering the ClientHello with non-TLS bytes can be expressed."""
+
+    def accept(self):
+        ok = fakenet.FakeConnector.accept(self)
+        if ok:
+            self.cs.tls = True
+        return ok
+
+    def wrap(self):
+        pass        # the fake socket is its own TLS layer
+
+    connect = tcpc.ClientTls.connect
+
+
+def garbage_offset(case, data):
+    g = case.get("garbage_at")
+    return None if g is None else g % (len(data) + 1)
+
+
 def run_server(case, data, r):
-    bare = case["target"] == "bare"
-    rig = memhttp.Rig(app=echo_app, bare=bare, bs=4096, tymeout=100000.0, **({"dictable": case.get("dictable", False)} if bare else {}))
+    target = case["target"]
+    tls = target.endswith("-tls")
+    bare = target.startswith("bare")
+    kwa = {"dictable": case.get("dictable", False)} if bare else {}
+    rig = (c16_TlsRig if tls else memhttp.Rig)(app=echo_app, bare=bare, bs=4096, tymeout=100000.0, **kwa)
     pa = rig.connect()
     pb = rig.connect()
-    frags = cap(httpgen.fragments(data, case["cuts"])) if data else [b""]
+    goff = garbage_offset(case, data) if tls else None
+    sent = data if goff is None else data[:goff]
+    frags = cap(httpgen.fragments(sent, case["cuts"])) if sent else [b""]
     try:
         rig.cycle()
         sib_at = case.get("sib_at", 0) % (len(frags) + 1)
@@ -169,6 +334,8 @@ def run_server(case, data, r):
             if i == sib_at:
                 rig.send(pb, SIB_REQ)
             rig.send(pa, f)
+            if goff is not None and i == len(frags) - 1:
+                rig.clients[pa].peer.poison()       # A goes on with bytes that are not TLS
             rig.cycle()
         if sib_at >= len(frags):
             rig.send(pb, SIB_REQ)
@@ -177,7 +344,8 @@ def run_server(case, data, r):
         for _ in range(12):
             rig.cycle()
     except Exception as ex:      # noqa: BLE001
-        r.fail(sig_of("%s-server-raised" % case["target"], ex), "%s: %s on input %r" % (type(ex).__name__, ex, data[:120]))
+        r.fail(sig_of("%s-server-raised" % target, ex), "%s: %s on input %r%s" % (
+            type(ex).__name__, ex, sent[:120], "" if goff is None else " followed by bytes that are not TLS"))
         return
     resps, left, problem = memhttp.parse_responses(bytes(rig.rx[pb]), rig.eof[pb])
     ok = not problem and len(resps) == 1 and resps[0]["status"] == 200
@@ -189,7 +357,7 @@ def run_server(case, data, r):
         except ValueError:
             ok = False
     if not ok:
-        r.fail("C16/%s-sibling-not-served" % case["target"], "sibling got %r (problem %r) while A sent %r" % (
+        r.fail("C16/%s-sibling-not-served" % target, "sibling got %r (problem %r) while A sent %r" % (
             bytes(rig.rx[pb])[:120], problem, data[:80]))
 
 
@@ -199,7 +367,7 @@ class _Patch:
     def __enter__(self):
         self.saved = (clienting.tcp.Client, clienting.tcp.ClientTls)
         clienting.tcp.Client = fakenet.FakeConnector
-        clienting.tcp.ClientTls = fakenet.FakeConnectorTls
+        clienting.tcp.ClientTls = c16_ConnectorTls
         fakenet.FakeConnector.registry = {}
         fakenet.FakeConnector.opened_to = []
         return self
@@ -210,34 +378,57 @@ class _Patch:
 
 def run_client(case, data, r):
     tls = case["target"] == "client-tls"
+    copts = case.get("copts") or {}
+    reconnectable = bool(copts.get("reconnectable"))
+    goff = garbage_offset(case, data) if tls else None
+    sent = data if goff is None else data[:goff]
     with _Patch():
         socks = []
 
         def maker():
-            a, b = fakenet.pipe(a_addr=("127.0.0.1", 43000 + len(socks)), b_addr=("127.0.0.1", 8080))
+            a = c16_TlsSocket("a", ("127.0.0.1", 43000 + len(socks)), ("127.0.0.1", 8080))
+            b = fakenet.FakeSocket("b", ("127.0.0.1", 8080), ("127.0.0.1", 43000 + len(socks)))
+            a.peer, b.peer = b, a
+            if tls and case.get("hs_garbage") and not socks:
+                a.c16_hs_poisoned = True        # the far side answers the ClientHello with bytes that are not TLS
             socks.append((a, b))
             return a
         fakenet.FakeConnector.registry[("127.0.0.1", 8080)] = maker
-        cls = fakenet.FakeConnectorTls if tls else fakenet.FakeConnector
-        conn = cls(ha=("127.0.0.1", 8080))
+        cls = c16_ConnectorTls if tls else fakenet.FakeConnector
+        ckw = {}
+        tymist = None
+        if reconnectable:
+            # a client that reconnects (server sent events): wound to a harness clock that is ticked once per service cycle
+            tymist = tyming.Tymist(tyme=0.0, tock=0.125)
+            ckw = {"tymth": tymist.tymen(), "reconnectable": True, "tymeout": 0.25}
+        conn = cls(ha=("127.0.0.1", 8080), **ckw)
         conn.reopen()
+        hkw = {"dictable": True} if copts.get("dictable") else {}
         client = clienting.Client(connector=conn, method="GET", path="/x", hostname="127.0.0.1", port=8080,
-                                  scheme="https" if tls else "http")
+                                  scheme="https" if tls else "http", **hkw)
         client.request(method="GET", path="/x")
-        frags = cap(httpgen.fragments(data, case["cuts"])) if data else [b""]
+        frags = cap(httpgen.fragments(sent, case["cuts"])) if sent else [b""]
+
+        def cycle():
+            client.service()
+            if tymist is not None:
+                tymist.tick()
         try:
-            client.service()
-            client.service()
-            for f in frags:
+            cycle()
+            cycle()
+            for i, f in enumerate(frags):
                 if socks:
                     socks[0][1].send(f)
-                client.service()
+                    if goff is not None and i == len(frags) - 1:
+                        socks[0][0].poison()        # the far side goes on with bytes that are not TLS
+                cycle()
             if case.get("close_a") and socks:
                 socks[0][1].close()
-            for _ in range(8):
-                client.service()
+            for _ in range(12 if reconnectable else 8):
+                cycle()
         except Exception as ex:      # noqa: BLE001
-            r.fail(sig_of("%s-raised" % case["target"], ex), "%s: %s on response bytes %r" % (type(ex).__name__, ex, data[:120]))
+            r.fail(sig_of("%s-raised" % case["target"], ex), "%s: %s on response bytes %r%s" % (
+                type(ex).__name__, ex, sent[:120], "" if goff is None and not case.get("hs_garbage") else " and bytes that are not TLS"))
             return
         if len(client.responses) > 1:
             r.fail("C16/client-more-than-one-entry", "%d response entries for one request" % len(client.responses))
@@ -251,7 +442,7 @@ def run_case(case):
     else:
         data = case["raw"]
     with contextlib.redirect_stderr(io.StringIO()):     # the servers report parse errors on sys.stderr
-        if case["target"] in ("wsgi", "bare"):
+        if kind == "req":
             run_server(case, data, r)
         else:
             run_client(case, data, r)
@@ -263,12 +454,28 @@ def run_case(case):
     else:
         p = first.split(b" ")
         valid_start = len(p) >= 2 and p[0].startswith(b"HTTP/1.") and p[1].isdigit() and len(p[1]) == 3
-    r.nontrivial = case.get("base") is not None and bool(case["muts"]) and valid_start
+    tlsbad = case["target"].endswith("-tls") and (case.get("garbage_at") is not None or bool(case.get("hs_garbage")))
+    r.nontrivial = case.get("base") is not None and (bool(case["muts"]) or tlsbad) and valid_start
     r.labels.append("target:" + case["target"])
     r.labels.append("mutated-valid" if case.get("base") is not None else "raw-bytes")
     for m in (case.get("muts") or []):
         r.labels.append("mut:" + m[0])
+    if tlsbad:
+        r.labels.append("non-tls-bytes:" + ("handshake" if case.get("hs_garbage") else "after-handshake"))
+    for k, v in sorted((case.get("copts") or {}).items()):
+        if v:
+            r.labels.append("client:" + k)
     return r
+
+
+def sse_mutation():
+    sse_line = st.tuples(st.sampled_from(SSE_FIELDS), st.sampled_from(SSE_SEPS),
+                         st.one_of(st.sampled_from(SSE_VALUES), st.binary(max_size=6)), st.sampled_from(SSE_EOLS),
+                         st.sampled_from([b"", b"", b"\n", b"\r\n"])).map(b"".join)
+    sse_stream = st.one_of(st.sampled_from(SSE_STREAMS),
+                           st.tuples(st.sampled_from([b"", b"", b"\xef\xbb\xbf"]), st.lists(sse_line, min_size=1, max_size=6).map(b"".join),
+                                     st.sampled_from([b"\n", b"\n\n", b""])).map(b"".join))
+    return st.tuples(st.just("sse"), st.sampled_from(["close", "close", "chunked", "len"]), sse_stream)
 
 
 def mutation(kind):
@@ -288,10 +495,22 @@ def mutation(kind):
         st.tuples(st.just("flip"), st.integers(0, 10 ** 6), st.integers(0, 255)),
         st.tuples(st.just("insert"), st.integers(0, 10 ** 6), st.binary(min_size=1, max_size=6)),
     ]
+    nest = st.tuples(st.just("jsonbody"), st.sampled_from(JSON_CTYPES), st.sampled_from(sorted(JSON_NEST)),
+                     st.sampled_from(JSON_DEPTHS), st.booleans())
+    common += [nest, nest]
     if kind == "req":
         common += [st.tuples(st.just("target"), st.sampled_from(BAD_TARGETS)),
+                   st.tuples(st.just("target"), st.sampled_from(PCT_TARGETS)),
+                   st.tuples(st.just("target"), st.lists(st.sampled_from(TARGET_PIECES), min_size=1, max_size=8).map("".join)),
                    st.tuples(st.just("startline"), st.sampled_from(BAD_STARTS_REQ))]
     else:
+        sse = sse_mutation()
+        loc = st.one_of(st.sampled_from(HOSTILE_LOCATIONS),
+                        st.tuples(st.sampled_from(LOC_SCHEMES), st.sampled_from(LOC_HOSTS), st.sampled_from(LOC_PORTS),
+                                  st.sampled_from(LOC_TAILS)).map("".join))
+        common += [sse, sse, sse,
+                   st.tuples(st.just("location"), st.sampled_from([301, 302, 303, 307, 308]), loc),
+                   st.tuples(st.just("location"), st.sampled_from([301, 302, 303, 307, 308]), loc)]
         common += [st.tuples(st.just("startline"), st.sampled_from(BAD_STARTS_RESP)),
                    st.tuples(st.just("location"), st.sampled_from([301, 302, 303, 307, 300]),
                              st.sampled_from([None, "/other", "http://127.0.0.1:8080/y", "http://otherhost:81/z",
@@ -337,25 +556,96 @@ def enumerate_cases(tier, shard, nshards):
                         yield {"target": target, "base": base, "muts": [m], "raw": b"", "cuts": cuts, "sib_at": k % 4,
                                "close_a": bool(k % 2), "dictable": bool((k // 2) % 2)}
                     k += 1
-    return [("listed near-valid values x position x service loop", cells(), True)]
+    def hunt_cells():
+        """The hostile families added after the C16 hunt, every listed value alone on a canonical message."""
+        whole, bytewise = {"mode": "random", "points": []}, {"mode": "every", "k": 1}
+        k = 0
+        for target in ("wsgi", "bare", "wsgi-tls", "bare-tls", "client", "client-tls"):
+            kind = "resp" if target.startswith("client") else "req"
+            tls = target.endswith("-tls")
+            chunked, plain = _bases(kind)
+            rows = []       # (base, muts, extra case fields)
+            nests = [["jsonbody", ct, op, depth, closed] for ct in ("application/json", None) for op in sorted(JSON_NEST)
+                     for depth in (1600, 20000) for closed in (False, True)]
+            for m in nests:
+                for opt in (False, True):
+                    rows.append((plain, [m], {"dictable": opt, "copts": {"dictable": opt}}))
+            rows.append((chunked, [["jsonbody", "application/json", "[", 3000, False]], {}))
+            if kind == "req":
+                rows += [(plain, [["target", v]], {}) for v in PCT_TARGETS]
+            else:
+                for stream in SSE_STREAMS:
+                    for frame in ("close", "chunked"):
+                        for rec in (False, True):
+                            for dic in (False, True):
+                                rows.append((plain, [["sse", frame, stream]], {"copts": {"reconnectable": rec, "dictable": dic},
+                                                                               "close_a": True}))
+                rows += [(plain, [["location", status, v]], {}) for v in HOSTILE_LOCATIONS for status in (301, 307)]
+            if tls:
+                # a valid message, the peer switches to bytes that are not TLS at every listed offset
+                bases = []
+                for version in ("HTTP/1.1", "HTTP/1.0"):
+                    for conn in (None, "close"):
+                        bases += [dict(plain, version=version, conn=conn), dict(chunked, version=version, conn=conn)]
+                for b in bases:
+                    n = len(httpgen.build(b))
+                    for g in sorted({0, 1, n // 2, n - 1, n}):
+                        rows.append((b, [], {"garbage_at": g}))
+                # ... and right behind a malformed message (the connection is being given up by the http layer as well)
+                for m in (["startline", "GET / HTTP/2.0" if kind == "req" else "HTTP/2.0 200 OK"], ["cl", "abc"], ["nospace", 0],
+                          ["chunksize", "zz"]):
+                    for b in (bases[0], bases[1], bases[2]):
+                        rows.append((b, [m], {"garbage_at": len(mutate(b, [m], kind))}))
+                if kind == "resp":
+                    rows += [(b, [], {"hs_garbage": True}) for b in bases[:2]]
+            for base, muts, extra in rows:
+                for cuts in (whole, bytewise):
+                    if k % nshards == shard:
+                        case = {"target": target, "base": base, "muts": muts, "raw": b"", "cuts": cuts, "sib_at": k % 4,
+                                "close_a": bool(k % 2), "dictable": bool((k // 2) % 2)}
+                        case.update(extra)
+                        yield case
+                    k += 1
+    return [("listed near-valid values x position x service loop", cells(), True),
+            ("hostile families (percent-encoded targets, nested JSON, event streams, Location values, non-TLS bytes) x service loop",
+             hunt_cells(), True)]
+
+
+def events_strategy(target):
+    """Event-stream responses to a (mostly reconnectable) client whose far side (mostly) closes afterwards, so that what the
+    stream left behind (last event id, retry) is used by the reconnect."""
+    mostly = st.sampled_from([True, True, True, False])
+    light = st.one_of(st.tuples(st.just("truncate"), st.integers(0, 10 ** 6)),
+                      st.tuples(st.just("flip"), st.integers(0, 10 ** 6), st.integers(0, 255)),
+                      st.tuples(st.just("insert"), st.integers(0, 10 ** 6), st.binary(min_size=1, max_size=6)))
+    muts = st.tuples(sse_mutation(), st.lists(light, max_size=1)).map(lambda t: [list(t[0])] + [list(x) for x in t[1]])
+    case = {"target": st.just(target), "base": httpgen.response_spec(max_body=20), "muts": muts, "raw": st.just(b""),
+            "cuts": httpgen.cuts(), "sib_at": st.just(0), "close_a": mostly, "dictable": st.just(False),
+            "copts": st.fixed_dictionaries({"reconnectable": mostly, "dictable": st.booleans()})}
+    if target.endswith("-tls"):
+        case["garbage_at"] = st.none()
+    return st.fixed_dictionaries(case)
 
 
 def case_strategy(target):
     kind = "resp" if target.startswith("client") else "req"
+    tls = target.endswith("-tls")
     base = httpgen.request_spec(max_body=60) if kind == "req" else httpgen.response_spec(max_body=60)
-    mutated = st.fixed_dictionaries({"target": st.just(target), "base": base,
-                                     "muts": st.lists(mutation(kind), min_size=1, max_size=3), "raw": st.just(b""),
-                                     "cuts": httpgen.cuts(), "sib_at": st.integers(0, 5), "close_a": st.booleans(),
-                                     "dictable": st.booleans()})
-    raw = st.fixed_dictionaries({"target": st.just(target), "base": st.none(), "muts": st.just([]),
-                                 "raw": st.one_of(st.binary(max_size=200),
-                                                  st.text(alphabet="GETPOSHTP/1.0 :\r\n;=abc%[]?#5x-_", max_size=120)
-                                                  .map(lambda t: t.encode("latin-1"))),
-                                 "cuts": httpgen.cuts(), "sib_at": st.integers(0, 5), "close_a": st.booleans(),
-                                 "dictable": st.booleans()})
-    valid = st.fixed_dictionaries({"target": st.just(target), "base": base, "muts": st.just([]), "raw": st.just(b""),
-                                   "cuts": httpgen.cuts(), "sib_at": st.integers(0, 5), "close_a": st.booleans(),
-                                   "dictable": st.booleans()})
+    common = {"target": st.just(target), "cuts": httpgen.cuts(), "sib_at": st.integers(0, 5), "close_a": st.booleans(),
+              "dictable": st.booleans()}
+    if kind == "resp":
+        common["copts"] = st.fixed_dictionaries({"reconnectable": st.booleans(), "dictable": st.booleans()})
+    if tls:
+        # offset (modulo length + 1) from which the peer writes bytes that are not TLS; None: it never does
+        common["garbage_at"] = st.one_of(st.none(), st.none(), st.integers(0, 10 ** 6))
+        if kind == "resp":
+            common["hs_garbage"] = st.sampled_from([False] * 7 + [True])
+    mutated = st.fixed_dictionaries(dict(common, base=base, muts=st.lists(mutation(kind), min_size=1, max_size=3), raw=st.just(b"")))
+    raw = st.fixed_dictionaries(dict(common, base=st.none(), muts=st.just([]),
+                                     raw=st.one_of(st.binary(max_size=200),
+                                                   st.text(alphabet="GETPOSHTP/1.0 :\r\n;=abc%[]?#5x-_", max_size=120)
+                                                   .map(lambda t: t.encode("latin-1")))))
+    valid = st.fixed_dictionaries(dict(common, base=base, muts=st.just([]), raw=st.just(b"")))
     return st.one_of(mutated, mutated, mutated, raw, valid)
 
 
@@ -363,4 +653,6 @@ def searches(tier):
     q = tier == "quick"
     n = 500 if q else 8000
     return [("wsgi-server", case_strategy("wsgi"), n), ("bare-server", case_strategy("bare"), n),
-            ("client", case_strategy("client"), n), ("client-tls", case_strategy("client-tls"), n // 2)]
+            ("client", case_strategy("client"), n), ("client-tls", case_strategy("client-tls"), n // 2),
+            ("client-events", events_strategy("client"), n // 2),
+            ("wsgi-tls-server", case_strategy("wsgi-tls"), n // 2), ("bare-tls-server", case_strategy("bare-tls"), n // 2)]
